@@ -52,6 +52,8 @@ def _is(t_or_name, role):
 
 def run(ctx):
     prog = ctx.prog
+    from .C11 import shape_wrappers
+    shape_wrappers(ctx, prog)
     ctx.rule('R13.1', 'add_vertex is called only on the true edge of is_free(&q) for that q, or for the two roots with start and goal')
     ctx.rule('R13.2', 'is_free == !KinematicsWithShape::collides(kinematics, converted vector); sampler == constraints().random_angles()')
     ctx.rule('R13.3', 'tree created with literal L receives `start`; path = reverse(ancestors(a)) ++ ancestors(b), reversed iff tree_b.name == L')
@@ -158,6 +160,7 @@ def run(ctx):
         ok_ret = any(isinstance(strip(t), tuple) and strip(t)[0] == 'agg' and 'Ok' in strip(t)[1] for t, d, rb in rvs)
         ctx.check(ok_ret, 'R13.3', 'returns-path', dual.where(0), dual.path, 'no Ok(path) return found')
     _ancestor_walk(ctx, prog)
+    _tree_bookkeeping(ctx, prog)
     swaps = calls.get('mem::swap', [])
     ctx.check(len(swaps) == 1, 'R13.3', 'swap', dual.where(swaps[0][0]) if swaps else dual.where(0), dual.path, 'trees must be swapped exactly once per iteration', found=len(swaps))
 
@@ -706,3 +709,137 @@ def _ancestor_walk(ctx, prog):
         ctx.check(ok, 'R13.3', 'ancestors-of-%d' % start, ab.where(0), ab.path,
                   'the ancestors of vertex %d in the tree 3->2->1->0, 4->1 must be %s (parent first, the root last and included), found %s' % (start, list(want), [repr(x) for x in got] if isinstance(got, (tuple, list)) else repr(got)),
                   found=repr(got)[:200], expected=str(list(want)), detail='by interpretation')
+
+
+def _tree_bookkeeping(ctx, prog):
+    """R13.7: the tree records what happened - a new vertex gets the next index, no parent and the configuration it was given;
+    an edge makes the first vertex the parent of the second; the extension links the new vertex below the nearest one and
+    reports the new vertex; the repeated extension stops exactly at Trapped / Reached and reports that outcome."""
+    from .. import absint
+    from ..absint import Interp, Sym, SOME, NONE
+    ctx.rule('R13.7', 'tree bookkeeping: add_vertex (next index, no parent, the given configuration), add_edge(parent, child), extend links new below nearest and reports new, connect repeats until Trapped / Reached')
+    tree_adt = [a for a in prog.adts if a.endswith('rrt_to::Tree')]
+    node_adt = [a for a in prog.adts if a.endswith('rrt_to::Node')]
+    st_adt = [a for a in prog.adts if a.endswith('rrt_to::ExtendStatus')]
+    if len(tree_adt) != 1 or len(node_adt) != 1 or len(st_adt) != 1:
+        return
+    nf = [f['name'] for f in prog.adts[node_adt[0]]['variants'][0]['fields']]
+    tf = [f['name'] for f in prog.adts[tree_adt[0]]['variants'][0]['fields']]
+    pf = [f for f in nf if 'parent' in f]
+    df = [f for f in nf if f not in pf]
+    vf = [f for f in tf if 'vert' in f or 'node' in f]
+    variants = [v['name'] for v in prog.adts[st_adt[0]]['variants']]
+    if len(pf) != 1 or len(df) != 1 or len(vf) != 1 or sorted(variants) != ['Advanced', 'Reached', 'Trapped']:
+        return
+    tree_bodies = [b for p_, b in prog.bodies.items() if p_.startswith('rrt_to::Tree') and b.kind != 'Closure']
+    ins = prog.bodies.get(ROLES.get('insert'))
+    grow = prog.bodies.get(ROLES.get('grow'))
+    until = prog.bodies.get(ROLES.get('grow_until'))
+    edge = [b for b in tree_bodies if b.arg_count == 3 and b.local_ty(2) == 'usize' and b.local_ty(3) == 'usize' and b.local_ty(0) == '()']
+
+    def tree_of(parents):
+        nodes = tuple({'#adt': node_adt[0], pf[0]: (NONE if p is None else SOME(p)), df[0]: Sym('d%d' % k)} for k, p in enumerate(parents))
+        tr = {'#adt': tree_adt[0]}
+        for f in tf:
+            tr[f] = Sym(('tree-field', f))
+        tr[vf[0]] = nodes
+        return tr
+
+    def run(b, args, H=None, mut=(0,)):
+        I = Interp(prog, H or {}, fuel=50000, max_paths=8)
+        I.symbolic, I.oracle = True, (lambda o, x, y: None)
+        res = I.run_with_cells(b.path, list(args), list(mut))
+        if len(res) != 1:
+            raise absint.Undecided('forks')
+        return res[0][0].ret, res[0][1]
+    # ---- add_edge(parent, child)
+    if len(edge) == 1:
+        b = edge[0]
+        ctx.fn(b)
+        try:
+            ret, cells = run(b, [('refval', tree_of([None, 0, 1, None]), ()), 1, 3])
+            after = [n.get(pf[0]) for n in cells[0][vf[0]]]
+            ok = after == [NONE, SOME(0), SOME(1), SOME(1)]
+            ctx.check(ok, 'R13.7', 'add_edge', b.where(0), b.path, 'add_edge(a, b) must make a the parent of b and touch nothing else',
+                      found=repr(after), expected='[None, Some(0), Some(1), Some(1)] after add_edge(1, 3)', detail='by interpretation')
+        except (absint.Unsupported, absint.Undecided, KeyError, TypeError):
+            pass
+    # ---- add_vertex
+    if ins is not None:
+        ctx.fn(ins)
+        log = []
+
+        def h_kd(I, st, a, t, b_):
+            vals = []
+            for x in a[1:]:
+                while isinstance(x, tuple) and x and x[0] in ('ref', 'refval', 'mref'):
+                    x = I.deref(x, st)
+                vals.append(x)
+            log.append(tuple(vals))
+            return ('enum', 0, ((),))
+        try:
+            q = (Sym('q0'), Sym('q1'))
+            ret, cells = run(ins, [('refval', tree_of([None, 0]), ()), ('refval', q, ())], {'KdTree::add': h_kd})
+            vs = cells[0][vf[0]]
+            ok = ret == 2 and len(vs) == 3 and vs[2].get(pf[0]) == NONE and tuple(vs[2].get(df[0])) == q and \
+                [n.get(pf[0]) for n in vs[:2]] == [NONE, SOME(0)] and (not log or (tuple(log[0][0]) == q and log[0][1] == 2))
+            ctx.check(ok, 'R13.7', 'add_vertex', ins.where(0), ins.path,
+                      'add_vertex(q) must append a vertex holding q without a parent, index it under the same number in the spatial index, and return that number',
+                      found='returned %r, vertices %d, index entries %r' % (ret, len(vs), log[:1]), detail='by interpretation')
+        except (absint.Unsupported, absint.Undecided, KeyError, TypeError, AttributeError):
+            pass
+    # ---- connect: repeat the extension until Trapped / Reached
+    if until is not None and grow is not None:
+        ctx.fn(until)
+
+        def status(name, payload=None):
+            return ('enum', variants.index(name), () if payload is None else (payload,))
+        for script, want in (([status('Advanced', 3), status('Advanced', 4), status('Reached', 5)], status('Reached', 5)),
+                             ([status('Advanced', 3), status('Trapped')], status('Trapped')),
+                             ([status('Reached', 9)], status('Reached', 9)), ([status('Trapped')], status('Trapped'))):
+            left = list(script)
+            calls_ = []
+
+            def h_grow(I, st, a, t, b_):
+                calls_.append(1)
+                if not left:
+                    raise absint.Undecided('script exhausted')
+                return left.pop(0)
+
+            def h_false(I, st, a, t, b_):
+                return False
+            H = {cname(grow.path): h_grow, grow.path: h_grow, 'PartialOrd::le': h_false, 'PartialOrd::ge': h_false}
+            try:
+                I = Interp(prog, H, fuel=50000, max_paths=8)
+                I.symbolic, I.oracle = True, (lambda o, x, y: None)
+                outs = I.run(until.path, [('refval', tree_of([None]), ()), ('refval', (Sym('t0'),), ()), Sym('step'), ('refval', Sym('is_free'), ())])
+            except (absint.Unsupported, absint.Undecided):
+                break
+            if len(outs) != 1:
+                break
+            key = 'connect/' + '-'.join(variants[s_[1]] for s_ in script)
+            ctx.check(outs[0].ret == want and not left, 'R13.7', key, until.where(0), until.path,
+                      'the repeated extension must go on while the tree advances and report Trapped / Reached(index) exactly as the last extension did',
+                      found='%r after %d extensions' % (outs[0].ret, len(calls_)), expected=repr(want), detail='by interpretation')
+    # ---- extend: the new vertex hangs below the nearest one and is the one reported
+    if grow is not None and ins is not None and len(edge) == 1:
+        sites = [(bi, t) for bi, t in grow.calls() if t['callee'].get('resolved') == edge[0].path]
+        nearest = [b for b in tree_bodies if b.arg_count == 2 and b.local_ty(0) == 'usize' and b.local_ty(2).startswith('&[') and b is not ins]
+        ok = len(sites) == 1 and len(nearest) == 1
+        found = None
+        if ok:
+            bi, t = sites[0]
+            a1, a2 = strip(grow.op_term(t['args'][1], (bi, None))), strip(grow.op_term(t['args'][2], (bi, None)))
+            found = 'add_edge(%s, %s)' % (show(a1, maxdepth=2), show(a2, maxdepth=2))
+            ok = isinstance(a1, tuple) and a1[0] == 'call' and a1[1] == nearest[0].path and isinstance(a2, tuple) and a2[0] == 'call' and a2[1] == ins.path
+            new_t = a2
+        ctx.check(ok, 'R13.7', 'extend/edge', grow.where(sites[0][0]) if sites else grow.where(0), grow.path,
+                  'the extension must link the new vertex below the nearest one: add_edge(nearest index, new index)', found=found)
+        if ok:
+            pay = []
+            for t_, d, rb in grow.return_values():
+                t_ = strip(t_)
+                if isinstance(t_, tuple) and t_[0] == 'agg' and len(t_) == 3 and ('Reached' in str(t_[1]) or 'Advanced' in str(t_[1])):
+                    pay.append(strip(t_[2]) == new_t)
+            ctx.check(bool(pay) and all(pay), 'R13.7', 'extend/reports-new', grow.where(0), grow.path,
+                      'Reached / Advanced must carry the index of the vertex that was just added', found=str(pay))
